@@ -61,6 +61,7 @@ def plan(prop, tier):
     types = QUICK_TYPES if q else ALL_TYPES
     sets = targets(["u32"] if q else ["u8", "u32", "u128", "Ipv4Net", "Ipv6Cidr"], ("set",))
     both = targets(types) + sets
+    core = ["Insert", "Remove", "RemoveKeepTree", "RemoveChildren"]
     if prop == "C01":
         return [TableJob("c01_u2", MUT + EXACT, MUT + EXACT, vals="{1,2}", maxcount=3 if q else 7,
                          targets=targets(types)),
@@ -72,11 +73,21 @@ def plan(prop, tier):
     if prop == "C03":
         return [TableJob("c03_u2", MUT + ["Iter"], ["Iter"], targets=both)]
     if prop == "C04":
-        return [TableJob("c04_u2", MUT + ["Len"], MUT + ["Len"], viewacct=not q, targets=both)]
+        hm = ["Entry", "GetMut", "ViewSet", "ViewRemove"]
+        return [TableJob("c04_u2", MUT + ["Len"], MUT + ["Len"], viewacct=not q, targets=both),
+                TableJob("c04_handles", core + hm + ["Len"], hm + core + ["Len"], vals="{1,2}" if not q else "{1}",
+                         maxcount=2 if q else 3, entrydepth=1 if q else 2, targets=targets(types))]
     if prop == "C09":
         return [TableJob("c09_u2", MUT + ["Spm", "Cover", "Lpm"], ["Spm", "Cover"], targets=both)]
     if prop == "C10":
         return [TableJob("c10_u2", MUT + ["Children"], ["Children", "RemoveChildren", "Retain"], targets=both)]
+    if prop == "C11":
+        return [TableJob("c11_u2", core + ["ViewDesc"], ["ViewDesc"], targets=both)]
+    if prop == "C12":
+        return [TableJob("c12_u2", core + ["Find"], ["Find"], targets=both)]
+    if prop == "C13":
+        w = ["GetMut", "LpmMut", "IterMut", "ValuesMut", "ChildrenMut", "ViewValueMut", "ViewIterMut"]
+        return [TableJob("c13_u2", core + w, w, vals="{1,2}", maxcount=3 if q else 4, targets=targets(types))]
     if prop == "C15":
         return [TableJob("c15_u2", MUT, MUT, targets=both)]
     if prop == "C16":
@@ -84,7 +95,7 @@ def plan(prop, tier):
     raise ToolError(f"no plan for {prop}")
 
 
-LEVEL = {p: "model_checking" for p in ["C01", "C02", "C03", "C04", "C09", "C10", "C15", "C16"]}
+LEVEL = {p: "model_checking" for p in ["C01", "C02", "C03", "C04", "C09", "C10", "C11", "C12", "C13", "C15", "C16"]}
 
 
 def run_check(prop, tier):
@@ -160,6 +171,13 @@ def conclude(prop, tier, t0, jobs, tlc_results, reports):
     )
     if executed == 0:
         raise ToolError("no row was executed on the implementation (vacuous run)")
+    # listed findings met in this run (explained by the specification's named deviations)
+    drift_rows = sum(r.get("drift_rows", 0) for r in reports)
+    cov["rows_with_counter_drift_F4"] = drift_rows
+    if prop == "C04" and drift_rows:
+        for kf in vlib.load_known_findings():
+            if kf["property"] == "C04" and kf["status"] == "open":
+                print(f"KNOWN-FINDING: property=C04 {kf['id']}: {kf['what']} ({kf['site']})")
     viol = 0
     seen = set()
     for mm in mine:
